@@ -25,6 +25,8 @@ NSHARDS = 15
 SAN = {'quick': (1, 60), 'thorough': (1, 60)}
 S3_EVERY = 1
 CASE_CPU_S = 600
+LINE_BUDGET = 150_000_000          # executed crysp lines per fault case (about a minute of CPU)
+_LINES = {}
 
 M0 = b''
 M1 = bytes(range(1, 41))
@@ -387,7 +389,13 @@ def run(case, ctx, rng):
         _, N, _ = sanitize.run_counting(lambda: calls[ci][1](new()))
         if N == 0:
             return
-        npts = min(case['points'], N)
+        # the work of one injection point is half the faulted call plus every judged follow-up call; the number of points is
+        # bounded by a fixed budget of executed lines (deterministic, so that a witness replays), never by the clock
+        if kind not in _LINES:
+            _LINES[kind] = [sanitize.run_counting(lambda cj=cj: calls[cj][1](new()))[1] if judged(calls[cj][0]) else 0 for cj in range(len(calls))]
+        per_point = N // 2 + sum(_LINES[kind]) + 1
+        npts = max(3, min(case['points'], N, LINE_BUDGET // per_point))
+        ctx.notes['injection points requested'] += min(case['points'], N); ctx.notes['injection points within the line budget'] += npts
         pts = sorted(set([1, N] + [1 + (N - 1) * j // max(1, npts - 1) for j in range(npts)])) if npts < N else list(range(1, N + 1))
         if npts < N:
             pts = sorted(set(pts + [rng.randrange(1, N + 1) for _ in range(npts)]))[:max(npts, 2) + npts]
